@@ -646,10 +646,11 @@ type writerVariant struct {
 
 // family is a sub-product of the alphabet. The dimensions (chunk script, reader failure, writer behaviour) are
 // crossed fully with max/n, capacity, WriterTo and every cancellation instant, and pairwise-fully with each other:
-//   A1: every script of <= 4 chunks  x  healthy readers (EOF alone / EOF with the last data)  x  healthy writers
-//   A2: every reader failure (byte k <= 8; alone / with data; custom / unexpected EOF)  x  scripts of <= 2 chunks  x  healthy writers
-//   A3: every failing writer  x  scripts of <= 1 chunk  x  {healthy reader, reader failing at byte 2}
-//   B (boundary lengths 511..2^20+1): 7 scripts x 4 reader behaviours x 3 writer behaviours
+//
+//	A1: every script of <= 4 chunks  x  healthy readers (EOF alone / EOF with the last data)  x  healthy writers
+//	A2: every reader failure (byte k <= 8; alone / with data; custom / unexpected EOF)  x  scripts of <= 2 chunks  x  healthy writers
+//	A3: every failing writer  x  scripts of <= 1 chunk  x  {healthy reader, reader failing at byte 2}
+//	B (boundary lengths 511..2^20+1): 7 scripts x 4 reader behaviours x 3 writer behaviours
 type family struct {
 	scripts [][]int
 	rvs     []readerVariant
